@@ -33,6 +33,8 @@ GLOBAL_REWRITES = [
      'attribute dropped'),
     ('R5c', re.compile(r'(?m)^([ \t]*)const (?=[A-Z_0-9]+\s*:[^;\n]*=)'), lambda m: m.group(1) + 'pub const ', 'const -> pub const'),
     ('R1', re.compile(r'\.to_le_bytes\(\)\[0\]'), '.le0()', 'x.to_le_bytes()[0] -> x.le0() (assumed: x mod 256)'),
+    ('R1b', re.compile(r'\b([a-z_][a-z0-9_]*)\.to_le_bytes\(\)(?!\[0\])'), lambda m: 'le_bytes2(%s)' % m.group(1),
+     'n.to_le_bytes() (u16) -> le_bytes2(n) (assumed little-endian byte pair)'),
     ('R2', re.compile(r'\|_\|'), '|_e|', 'closure parameter _ -> _e'),
     ('R13', re.compile(r'<&\[u8; (\d+)\]>::try_from\(([^\n]*?)\)\.expect\("[^"\n]*"\)'),
      lambda m: 'vp_as_array::<%s>(%s)' % (m.group(1), m.group(2)),
@@ -86,6 +88,11 @@ class Builder:
             ip = os.path.join(self.vdir, 'contracts', arg.strip())
             for k, ln in enumerate(open(ip).read().split('\n')):
                 self.emit(ln, {'kind': 'template', 'file': arg.strip(), 'line': k + 1})
+        elif cmd == 'expect':
+            m = re.match(r'(\S+)\s+`(.*)`\s*$', arg)
+            src = self.src[m.group(1)]
+            if len(re.findall(m.group(2), src.text)) != 1:
+                raise ToolError('expected source text not found exactly once in %s: %s' % (m.group(1), m.group(2)))
         elif cmd == 'instance':
             self.instance = arg.strip()
         elif cmd == 'fn':
@@ -306,13 +313,13 @@ class Builder:
                 elif arg == 'body.end':
                     ins(hi, lines)
                 else:
-                    mm = re.match(r'loop (\d+)\.(start|end)', arg)
+                    mm = re.match(r'loop (\d+)\.(start|end|after)', arg)
                     n = int(mm.group(1))
                     if n > len(loops):
                         self.problems.append('%s: loop %d not found' % (key, n))
                         continue
                     kw, bo, bc = loops[n - 1]
-                    ins(bo + 1 if mm.group(2) == 'start' else bc, lines)
+                    ins({'start': bo + 1, 'end': bc, 'after': bc + 1}[mm.group(2)], lines)
         return edits
 
     # ------------------------------------------------------------------ rendering
